@@ -141,6 +141,13 @@ def build_cases(seed, quick=True):
                   [{'a': 'RmFile', 'ns': 'iso', 'p': [dname, n]} for n in order[len(order) // 2:]] + \
                   [{'a': 'RmFile', 'ns': 'iso', 'p': [dname, extra_name]}]
             variants.append(sub)
+            # ... and growing while the sub-directory is already there (its ".." must follow), mastered
+            # in the grown state
+            grow = [{'a': 'AddDir', 'iso': [dname], 'jol': ['-'], 'udf': ['-']},
+                    {'a': 'AddDir', 'iso': [dname, sname], 'jol': ['-'], 'udf': ['-']}] + \
+                   [{'a': 'AddFp', 'blob': 's', 'iso': [dname, n], 'jol': ['-'], 'udf': ['-']} for n in order] + \
+                   [{'a': 'AddFp', 'blob': 's', 'iso': [dname, extra_name], 'jol': ['-'], 'udf': ['-']}]
+            variants.append(grow)
             for v in variants:
                 k += 1
                 cases.append(('p%d' % k, base + v, 6))
